@@ -29,6 +29,41 @@ Theorem C07_set_other_var :
 Proof. exact set_other_var. Qed.
 Print Assumptions C07_set_other_var.
 
+
+(* The same round trip through the code's own level-by-level read and write-back (get_subarray /
+   set_subarray): for every array, every chain of (flat_src, index) levels in which each level selects
+   distinct in-range entries of the array it indexes, every value of the innermost size and every pair
+   of affine units with non-zero factors. *)
+Theorem C07_set_get_roundtrip_through :
+  forall (a : list Q) (shape : list Z) (chain : list level) (ua us : unit) (vals : list Q),
+    levels_ok (length a) shape chain (length vals) ->
+    ~ (uf ua == 0)%Q -> ~ (uf us == 0)%Q ->
+    Forall2 Qeq (do_get (do_set a shape chain ua us vals) shape chain us ua) vals.
+Proof. exact set_get_roundtrip_through. Qed.
+Print Assumptions C07_set_get_roundtrip_through.
+
+(* entries outside the first level's selection keep their value *)
+Theorem C07_through_frame :
+  forall (s : list Q) (shape : list Z) (lv : level) (r : list level) (vals s' : list Q)
+         (q : list Z * list Z) (p : Z),
+    set_through s shape (lv :: r) vals = Some s' ->
+    om_index shape (fst lv) (snd lv) = Some q ->
+    0 <= p -> (forall x, In x (fst q) -> 0 <= x) -> ~ In p (fst q) ->
+    nth (Z.to_nat p) s' 0%Q = nth (Z.to_nat p) s 0%Q.
+Proof. exact through_frame. Qed.
+Print Assumptions C07_through_frame.
+
+(* aliasing (a level that reads one entry several times): after the write-back the entry holds the
+   value of its LAST alias — for all position lists and values *)
+Theorem C07_last_alias_wins :
+  forall (P : list Z) (s vals : list Q) (k : nat),
+    length vals = length P -> (k < length P)%nat ->
+    (forall p, In p P -> 0 <= p < Z.of_nat (length s)) ->
+    (forall j, (k < j < length P)%nat -> nth j P 0 <> nth k P 0) ->
+    nth (Z.to_nat (nth k P 0)) (scatterz s P vals) 0%Q = nth k vals 0%Q.
+Proof. exact scatterz_last_wins. Qed.
+Print Assumptions C07_last_alias_wins.
+
 (* the phase (metadata store before final_setup, root vector after it, after run_model) is
    unobservable: for every history the code's answers are those of one abstract map *)
 Theorem C07_set_get_phase_independent :
